@@ -110,13 +110,13 @@ def register(db):
     # when its messages were moved.  `where` is a ghost witness: the position in pop_soon of every entry picked so far.
     PICKED = "T in where"
     db.contract(
-        fn=C + "__update_delayed", serves=["C05", "C01"], clock=["now"],
+        fn=C + "__update_delayed", serves=["C05", "C01", "C15"], clock=["now"],
         # proved since the second session (cvc5 on portable dumps, element-wise append lemmas, a witness map for pop_soon);
         # ONLY the "keeps the single-copy invariant" clauses (used by consume@interference, C14) are left to the bounded
         # stand-in: they need an injective origin function for the moved messages through two nested loops
         bounded="inmem_update_delayed", bounded_clauses=["single_copy_kept:*"], seq_lemmas=True,
         note="bounded stand-in for the single_copy_kept clauses only, see replaylib/bounded.py",
-        fresh={"picked": ("map[datetime, int]", "local('where', None)")},
+        fresh={"picked": ("map[datetime, int]", "local('where', None)"), "starts": ("map[datetime, int]", "local('start', None)")},
         ensures={
             "never_early": f"forall(m, 'InMemMessage', implies(contains({Q}.simple, m),"
                            f" contains({S0}, m) or exists(T, 'datetime', T in {D0} and T <= now and contains({D0}[T], m))))",
@@ -131,17 +131,27 @@ def register(db):
                                       f" and forall(m, 'InMemMessage', implies(contains({Q}.simple, m), contains({S0}, m)"
                                       f" or exists(T, 'datetime', T in {D0} and T not in {Q}.delayed and contains({D0}[T], m))))",
             "waiting_order_kept": f"{Q}.simple[0:len({S0})] == {S0}",
+            # C15: the messages of one due time enter the waiting queue as one block, in the order they were enqueued
+            "due_bucket_order_kept": f"forall(T, 'datetime', implies(T in {D0} and T not in {Q}.delayed, 0 <= starts[T]"
+                                     f" and starts[T] + len({D0}[T]) <= len({Q}.simple) and forall_int(k, implies(0 <= k and k < len({D0}[T]),"
+                                     f" at({Q}.simple, starts[T] + k) == at({D0}[T], k)))))",
         },
         loops={
             0: LoopInv(header="for (time_, msgs) in self._queue.delayed.items()",
                        ghost={"visited": "V",
-                              "vars": {"where": ("map", "empty_map('datetime', 'int')"), "n0": ("int", "0")},
-                              # an entry was picked in this iteration iff pop_soon grew
+                              "vars": {"where": ("map", "empty_map('datetime', 'int')"), "n0": ("int", "0"),
+                                       "start": ("map", "empty_map('datetime', 'int')"), "s0len": ("int", f"len({Q}.simple)")},
+                              # an entry was picked in this iteration iff pop_soon grew; its block starts where the queue ended
                               "update": {"where": "map_with_if(where, len(pop_soon) > n0, time_, len(pop_soon) - 1)",
-                                         "n0": "len(pop_soon)"}},
+                                         "start": "map_with_if(start, len(pop_soon) > n0, time_, s0len)",
+                                         "n0": "len(pop_soon)", "s0len": f"len({Q}.simple)"}},
                        invariant={
                            "delayed_untouched": f"{Q}.delayed == {D0}",
                            "count": "n0 == len(pop_soon)",
+                           "length_tracked": f"s0len == len({Q}.simple)",
+                           "picked_blocks_in_order": f"forall(T, 'datetime', implies(T in where, T in start and 0 <= start[T]"
+                                                     f" and start[T] + len({D0}[T]) <= len({Q}.simple) and forall_int(k, implies(0 <= k and k < len({D0}[T]),"
+                                                     f" at({Q}.simple, start[T] + k) == at({D0}[T], k)))))",
                            "picked_are_due_and_listed": "forall(T, 'datetime', implies(T in where, T in V and T <= now and 0 <= where[T]"
                                                         " and where[T] < len(pop_soon) and at(pop_soon, where[T]) == T))",
                            "listed_are_picked": "forall_int(a, implies(0 <= a and a < len(pop_soon), at(pop_soon, a) in where"
@@ -153,8 +163,10 @@ def register(db):
                                                     f"exists(T, 'datetime', {PICKED} and T in {D0} and contains({D0}[T], m))))",
                            "prefix": f"{Q}.simple[0:len({S0})] == {S0} and len({Q}.simple) >= len({S0})",
                        },
-                       modifies={"pop_soon": "seq[datetime]", f"{Q}.simple": None, "where": "map[datetime, int]", "n0": "int"}),
-            1: LoopInv(header="for msg in msgs", ghost={"index": "i", "vars": {"s_in": ("seq", f"snap({Q}.simple)")}},
+                       modifies={"pop_soon": "seq[datetime]", f"{Q}.simple": None, "where": "map[datetime, int]", "n0": "int",
+                                 "start": "map[datetime, int]", "s0len": "int"}),
+            1: LoopInv(header=("for msg in msgs", "for msg in reversed(msgs)"),
+                       ghost={"index": "i", "vars": {"s_in": ("seq", f"snap({Q}.simple)")}},
                        invariant={"appended_so_far": f"{Q}.simple == s_in + msgs[0:i]", "delayed_untouched": f"{Q}.delayed == {D0}"},
                        modifies={f"{Q}.simple": None}),
             2: LoopInv(header="comp [self._queue.delayed.pop(i) for i in pop_soon]", ghost={"index": "j"},
